@@ -234,6 +234,40 @@ def tlc(module, cfg, workers=8, env_extra=None, timeout=3600, simulate=None, cov
     return r
 
 
+def apalache_inductive(chk, module, timeout=900):
+    """Unbounded-size assurance for a small integer model (specs/apalache/<module>.tla): Apalache checks
+    Init => IndInv, IndInv /\\ Next => IndInv', and - as a vacuity check - that IndInv /\\ NextBad can break
+    IndInv.  This says nothing about the code (the model's constants are not the code's); it removes the
+    small-scope caveat from the model-level claim.  A missing or failing tool is recorded, not a verdict."""
+    wd = os.path.join(WORK, "apalache", f"{module}-{os.getpid()}")
+    os.makedirs(wd, exist_ok=True)
+    src = os.path.join(SPECS, "apalache", module + ".tla")
+    runs = [("init", ["--init=Init", "--length=0"], "NoError"),
+            ("step", ["--init=IndInit", "--length=1"], "NoError"),
+            ("vacuity", ["--init=IndInit", "--next=NextBad", "--length=1"], "Error")]
+    res = {}
+    for name, args, want in runs:
+        try:
+            p = subprocess.run(["timeout", str(timeout), "apalache-mc", "check", f"--out-dir={wd}", "--cinit=ConstInit", "--inv=IndInv"]
+                               + args + [src], cwd=wd, env=base_env(), stdout=subprocess.PIPE, stderr=subprocess.STDOUT, text=True)
+            m = re.search(r"The outcome is: (\w+)", p.stdout)
+            res[name] = m.group(1) if m else f"no outcome (exit {p.returncode})"
+        except Exception as e:          # noqa: BLE001 - tool not installed, ...
+            res[name] = f"not run: {e}"
+    shutil.rmtree(wd, ignore_errors=True)
+    ok = all(res[n] == w for n, _, w in runs)
+    chk.extra.setdefault("apalache", {})[module] = {"outcomes": res, "inductive": ok,
+                                                   "obligations": 2, "discharged": sum(res[n] == "NoError" for n in ("init", "step"))}
+    if ok:
+        chk.notes.append(f"apalache: {module}!IndInv is inductive for unbounded sizes (and NextBad breaks it)")
+    elif any(v in ("Error",) for k, v in res.items() if k != "vacuity"):
+        chk.violation(f"model {module}: IndInv is not inductive ({res})", json.dumps(res), f"apalache-{module}.json")
+    else:
+        chk.notes.append(f"apalache: {module} not decided ({res})")
+    log(f"[apalache] {module}: {res}")
+    return ok
+
+
 def tlc_counterexample(out, limit=60):
     """The printed error trace of a TLC run (for replays / evidence)."""
     i = out.find("Error:")
